@@ -43,6 +43,10 @@ func match(filter CompFilter, comp *ical.Component) (bool, error) {
 	if comp.Name != filter.Name {
 		return filter.IsNotDefined, nil
 	}
+	if filter.IsNotDefined {
+		// the component exists
+		return false, nil
+	}
 
 	var zeroDate time.Time
 	if filter.Start != zeroDate {
@@ -76,20 +80,23 @@ func match(filter CompFilter, comp *ical.Component) (bool, error) {
 }
 
 func matchCompFilter(filter CompFilter, comp *ical.Component) (bool, error) {
-	var matches []*ical.Component
-
+	defined := false
 	for _, child := range comp.Children {
+		if child.Name != filter.Name {
+			continue
+		}
+		defined = true
 		match, err := match(filter, child)
 		if err != nil {
 			return false, err
 		} else if match {
-			matches = append(matches, child)
+			return true, nil
 		}
 	}
-	if len(matches) == 0 {
-		return filter.IsNotDefined, nil
+	if filter.IsNotDefined {
+		return !defined, nil
 	}
-	return true, nil
+	return false, nil
 }
 
 func matchPropFilter(filter PropFilter, comp *ical.Component) (bool, error) {
@@ -97,6 +104,8 @@ func matchPropFilter(filter PropFilter, comp *ical.Component) (bool, error) {
 	field := comp.Props.Get(filter.Name)
 	if field == nil {
 		return filter.IsNotDefined, nil
+	} else if filter.IsNotDefined {
+		return false, nil
 	}
 
 	for _, paramFilter := range filter.ParamFilter {
